@@ -2546,6 +2546,11 @@ impl TieredEngine {
 }
 
 fn normalize_in_place_if_needed(distance: DistanceMetric, embedding: &mut [f32]) -> Result<()> {
+    // Reject everything the index would reject later (`HnswVectorIndex::add_vector`), so that
+    // an unusable vector is refused before anything is logged.
+    if embedding.iter().any(|v| !v.is_finite()) {
+        anyhow::bail!("embedding contains non-finite values");
+    }
     if !matches!(
         distance,
         DistanceMetric::Cosine | DistanceMetric::InnerProduct
@@ -2562,8 +2567,19 @@ fn normalize_in_place_if_needed(distance: DistanceMetric, embedding: &mut [f32])
     }
 
     let inv_norm = 1.0 / norm_sq.sqrt();
-    for v in embedding {
+    for v in embedding.iter_mut() {
         *v *= inv_norm;
+    }
+
+    // The squared norm can overflow (or the scaling underflow): accept only what the
+    // index's own normalization check accepts.
+    let renorm_sq = crate::simd::sum_squares_f32(embedding);
+    if !(NORMALIZATION_NORM_SQ_MIN..=NORMALIZATION_NORM_SQ_MAX).contains(&renorm_sq) {
+        anyhow::bail!(
+            "embedding cannot be L2-normalized (norm_sq={}, after scaling {})",
+            norm_sq,
+            renorm_sq
+        );
     }
 
     Ok(())
